@@ -28,7 +28,9 @@ Record mem_arena := { mbufs : list mbuf;       (* buffers[0 .. num_buffers) *)
                       mrelocs : list slot;     (* reloc_list_head .. tail, in list order *)
                       minit : N;               (* initial_buffer_size *)
                       mcalls : nat;            (* number of yr_realloc calls so far (indexes the oracle) *)
-                      mzlim : list N }.        (* per buffer: the bytes at offsets [used, mzlim) are known to be zero *)
+                      mzlim : list N;          (* per buffer: the bytes at offsets [used, mzlim) are known to be zero *)
+                      mpinned : bool }.        (* true: arena.c as it was before the "fix: zero the memory returned by
+                                                  yr_arena_allocate_zeroed_memory in every case" commit *)
 
 (* C return codes / behaviours that are not a return value *)
 Inductive merr := EInvalidArgument | ENoMem.
@@ -37,9 +39,10 @@ Inductive mbad :=
 | BadAssertPtr    (* an assert() of yr_arena_get_ptr fires *)
 | BadStoreOOB     (* memcpy outside the used part of a buffer *)
 | BadHang         (* initial_buffer_size == 0: `while (new_size < used + size) new_size *= 2` never ends *)
-| BadDirtyZero    (* a ZERO_MEMORY allocation served from spare capacity that was never zeroed: arena.c
-                     memsets only when it reallocs with the flag, so after a growth caused by
-                     yr_arena_write_data / yr_arena_allocate_memory the "zeroed" memory is indeterminate *)
+| BadDirtyZero    (* pinned code only: a ZERO_MEMORY allocation served from spare capacity that was never
+                     zeroed.  arena.c used to memset only the part added by a realloc made with the flag, so
+                     after a growth caused by yr_arena_write_data / yr_arena_allocate_memory the "zeroed"
+                     memory was indeterminate.  The current code memsets the allocated region itself. *)
 | BadPlacement.   (* the oracle answered something realloc cannot return: NULL is modelled as ENoMem by the
                      caller, here: overlapping another live block, or wrapping around the address space *)
 Inductive mres (A : Type) := MOk (a : A) | MErr (e : merr) | MBad (b : mbad).
@@ -136,12 +139,13 @@ Definition m_alloc (orc : oracle) (m : mem_arena) (b : nat) (zero : bool) (x : b
             MOk {| mbufs := upd l1 b {| base := nbase; cap := ncap; data := data mb1 ++ x |};
                    mrelocs := mrelocs m; minit := minit m; mcalls := S (mcalls m);
                    (* `if (flags & YR_ARENA_ZERO_MEMORY) memset(new_data + used, 0, new_size - used)` *)
-                   mzlim := if zero then upd (mzlim m) b ncap else mzlim m |}
+                   mzlim := if zero then upd (mzlim m) b ncap else mzlim m; mpinned := mpinned m |}
           else MBad BadPlacement
       end
-    else if zero && (nth b (mzlim m) 0 <? u + nlen x) then MBad BadDirtyZero
-    else MOk {| mbufs := upd l b (with_data mb (data mb ++ x));
-                mrelocs := mrelocs m; minit := minit m; mcalls := mcalls m; mzlim := mzlim m |}.
+    else if zero && mpinned m && (nth b (mzlim m) 0 <? u + nlen x) then MBad BadDirtyZero
+    else (* current code: `if (flags & YR_ARENA_ZERO_MEMORY) memset(b->data + b->used, 0, size)` *)
+      MOk {| mbufs := upd l b (with_data mb (data mb ++ x));
+             mrelocs := mrelocs m; minit := minit m; mcalls := mcalls m; mzlim := mzlim m; mpinned := mpinned m |}.
 
 (* yr_arena_get_ptr / yr_arena_ref_to_ptr *)
 Definition get_ptr (l : list mbuf) (t : option slot) : mres N :=
@@ -159,11 +163,12 @@ Definition m_poke (m : mem_arena) (b off : nat) (x : bytes) : mres mem_arena :=
   let l := mbufs m in
   if (b <? length l)%nat && (off + length x <=? used l b)%nat then
     MOk {| mbufs := upd l b (with_data (bufof l b) (splice (data (bufof l b)) off x));
-           mrelocs := mrelocs m; minit := minit m; mcalls := mcalls m; mzlim := mzlim m |}
+           mrelocs := mrelocs m; minit := minit m; mcalls := mcalls m; mzlim := mzlim m; mpinned := mpinned m |}
   else MBad BadStoreOOB.
 
 Definition m_reg (m : mem_arena) (ss : list slot) : mem_arena :=
-  {| mbufs := mbufs m; mrelocs := mrelocs m ++ ss; minit := minit m; mcalls := mcalls m; mzlim := mzlim m |}.
+  {| mbufs := mbufs m; mrelocs := mrelocs m ++ ss; minit := minit m; mcalls := mcalls m; mzlim := mzlim m;
+     mpinned := mpinned m |}.
 
 (* ---------- operations: an address-free description of what a client of the arena does *)
 Inductive op :=
@@ -211,7 +216,11 @@ Fixpoint run (orc : oracle) (m : mem_arena) (ops : list op) : mres mem_arena :=
 
 (* yr_arena_create(nb, cap, &arena) *)
 Definition init (nb : nat) (cp : N) : mem_arena :=
-  {| mbufs := repeat nullbuf nb; mrelocs := []; minit := cp; mcalls := 0; mzlim := repeat 0 nb |}.
+  {| mbufs := repeat nullbuf nb; mrelocs := []; minit := cp; mcalls := 0; mzlim := repeat 0 nb; mpinned := false |}.
+(* the same with arena.c as it was at the pinned commit (only used by the _refuted witness and by the check's
+   classification of a reappearance) *)
+Definition init_pinned (nb : nat) (cp : N) : mem_arena :=
+  {| mbufs := repeat nullbuf nb; mrelocs := []; minit := cp; mcalls := 0; mzlim := repeat 0 nb; mpinned := true |}.
 
 (* ---------- yr_arena_ptr_to_ref: first buffer, in index order, with data != NULL and
    data <= address < data + used *)
@@ -345,6 +354,8 @@ Definition disciplined (nb : nat) (ops : list op) : Prop := exists a, arun true 
 (* ---------- entry points of the extracted model runner (ocaml/cmds/20_arenamem.ml) *)
 Definition am_run (nb : nat) (cp : N) (answers : list (N * option N)) (ops : list op) : mres mem_arena :=
   run (fun k => nth k answers (0, None)) (init nb cp) ops.
+Definition am_run_pinned (nb : nat) (cp : N) (answers : list (N * option N)) (ops : list op) : mres mem_arena :=
+  run (fun k => nth k answers (0, None)) (init_pinned nb cp) ops.
 Definition am_arun (strict : bool) (nb : nat) (ops : list op) : ares aarena := arun strict (ainit nb) ops.
 Definition am_mem (m : mem_arena) : list (N * bytes) := map (fun b => (base b, data b)) (mbufs m).
 Definition am_calls (m : mem_arena) : nat := mcalls m.
